@@ -83,3 +83,12 @@ package utils
 //@   ensures fresh-copy: result != nil ==> fresh(result)
 //@ end
 
+
+// each endpoint of a matching slice port goes to exactly one list: `ready` iff
+// its Ready condition is unset or true (Serving/Terminating are not consulted)
+//@ func createEndpointSlices#partition
+//@   props C03 C16
+//@   loop 3 step one-list: (endpoint.Conditions.Ready == nil || *endpoint.Conditions.Ready)
+//@       ? (len(ready) == $head(len(ready)) + 1 && len(notReady) == $head(len(notReady)) && ready[len(ready)-1] == domainEndpoint)
+//@       : (len(notReady) == $head(len(notReady)) + 1 && len(ready) == $head(len(ready)) && notReady[len(notReady)-1] == domainEndpoint)
+//@ end
